@@ -339,3 +339,87 @@ func RunBBoxRound(w *World, r *Report, fns []*ssa.Function) {
 	}
 	r.Floor("bboxround", 4)
 }
+
+// RunExtentPairs: Glyph.Extent takes the end point of every drawing command
+// as a pair of consecutive arguments (Args[0], Args[1] for moves and lines,
+// Args[4], Args[5] for curves).  The two float variables that receive them
+// are, at the join behind the switch over the command kind, phis whose
+// operands come from the same command's argument list at indices k and k+1
+// on every incoming edge: a case that sets only one coordinate leaves the
+// other at 0 (or at the previous command's value) and the box is wrong.
+func RunExtentPairs(w *World, r *Report) {
+	r.Rule("extentpairs: in (*cff.Glyph).Extent the x and y coordinate of a command's end point are taken, on every case of the switch over the command kind, from consecutive elements Args[k], Args[k+1] of the same argument list")
+	fn := w.Func("(*cff.Glyph).Extent")
+	if fn == nil {
+		r.Fatal("(*cff.Glyph).Extent does not resolve")
+		return
+	}
+	key := r.MkKey("extentpairs", fnName(fn), "end point of a command")
+	argIdx := func(v ssa.Value) (int64, bool) {
+		ld, ok := v.(*ssa.UnOp)
+		if !ok || ld.Op != token.MUL {
+			return 0, false
+		}
+		ia, ok := ld.X.(*ssa.IndexAddr)
+		if !ok {
+			return 0, false
+		}
+		if base, ok := ia.X.(*ssa.UnOp); !ok || fieldName(base.X) != "Args" {
+			return 0, false
+		}
+		return bconstIntOK(ia.Index)
+	}
+	for _, b := range fn.Blocks {
+		var phis []*ssa.Phi
+		for _, in := range b.Instrs {
+			ph, ok := in.(*ssa.Phi)
+			if !ok {
+				break
+			}
+			n := 0
+			for _, e := range ph.Edges {
+				if _, ok := argIdx(e); ok {
+					n++
+				}
+			}
+			if n >= 2 {
+				phis = append(phis, ph)
+			}
+		}
+		if len(phis) == 0 {
+			continue
+		}
+		if len(phis) != 2 {
+			r.Fail("extentpairs", key, w.Pos(phis[0].Pos()), fmt.Sprintf("%d variables receive command arguments at the join behind the switch, expected the two coordinates", len(phis)), nil)
+			r.Floor("extentpairs", 1)
+			return
+		}
+		x, y := phis[0], phis[1]
+		for i := range x.Edges {
+			kx, okx := argIdx(x.Edges[i])
+			ky, oky := argIdx(y.Edges[i])
+			if !okx && !oky {
+				continue // an edge that carries no command (default case)
+			}
+			if okx != oky {
+				r.Fail("extentpairs", key, w.Pos(x.Pos()), "on one case of the switch only one of the two coordinates is taken from the command's arguments: the other keeps its zero value, so the bounding box does not contain that end point", nil)
+				r.Floor("extentpairs", 1)
+				return
+			}
+			if ky != kx+1 && kx != ky+1 {
+				r.Fail("extentpairs", key, w.Pos(x.Pos()), fmt.Sprintf("the coordinates of one case come from Args[%d] and Args[%d], which are not a pair of consecutive arguments", kx, ky), nil)
+				r.Floor("extentpairs", 1)
+				return
+			}
+		}
+		r.OK("extentpairs", key, w.Pos(x.Pos()), "consecutive arguments on every case")
+		r.Floor("extentpairs", 1)
+		return
+	}
+	r.Fail("extentpairs", key, w.Pos(fn.Pos()), "no join of command arguments found in Extent", nil)
+	r.Floor("extentpairs", 1)
+}
+
+func bconstIntOK(v ssa.Value) (int64, bool) {
+	return bconstInt(v)
+}
